@@ -78,6 +78,12 @@ impl ExternalDevice for RegDev {
 thread_local! {
     /// replayed behaviours: headers without memory segments (see TV_Machine!TraceBaseRd)
     pub static LIGHT_HEADERS: std::cell::Cell<bool> = const { std::cell::Cell::new(false) }; pub static PAIR_TAG: std::cell::RefCell<String> = std::cell::RefCell::new("none".to_string()); }
+thread_local! {
+    /// replayed adversarial machines (MC_Machine): the header names the memory pattern instead of listing memory
+    pub static PATTERN: std::cell::Cell<u8> = const { std::cell::Cell::new(0) };
+    /// bytes queued on the keyboard before the header is taken
+    pub static PRE_KEYS: std::cell::RefCell<Vec<u8>> = const { std::cell::RefCell::new(Vec::new()) };
+}
 thread_local! { static PAIR_POS: std::cell::Cell<u32> = const { std::cell::Cell::new(0) }; }
 pub fn set_pair_tag(t: &str) { PAIR_TAG.with(|p| *p.borrow_mut() = t.to_string()); PAIR_POS.with(|c| c.set(0)); }
 fn next_pair_pos() -> &'static str {
@@ -118,6 +124,9 @@ fn dev_json(k: &str, time: u32, en: bool, lo: u32, hi: u32, vect: u8, prio: u8, 
            "vect": vect, "prio": prio, "slot": slot})
 }
 
+/// Fill values of MachineProps!FillTab.
+pub const FILL_TAB: [u16; 4] = [4369, 8738, 0, 65535];
+
 impl M {
     /// Creates a simulator, attaches keyboard and display and emits the `New` header.
     pub fn new(run: u64, flags: SimFlags, out: &mut Out) -> M { Self::new_from(run, flags, out, |_| vec![]) }
@@ -134,6 +143,7 @@ impl M {
         sim.device_handler.set_keyboard(kb);
         sim.device_handler.set_display(ds);
         let pre_timers = pre(&mut sim);
+        PRE_KEYS.with(|k| kbd.write().unwrap().extend(k.borrow().iter().copied()));
         let shadow: Vec<Word> = (0..=u16::MAX).map(|a| sim.mem[a]).collect();
         let mut m = M {
             sim, shadow, kbd, disp, intfns: vec![], timers: vec![], timer_cfg: vec![],
@@ -180,6 +190,16 @@ impl M {
             MachineInitStrategy::Unseeded => json!({"k": "unseeded", "v": 0}),
         };
         let p = m.proj_with(false);
+        let pattern = PATTERN.with(|p| p.get());
+        if light && pattern != 0 {
+            out.emit(json!({
+                "ev": "New", "run": run, "pair": PAIR_TAG.with(|p| p.borrow().clone()), "pairpos": next_pair_pos(), "light": 1, "pattern": pattern, "poke": [m.sim.pc, m.sim.mem[m.sim.pc].get()],
+                "flags": Flags::of(&flags).json(), "init": init, "fill": w(fill), "segs": [], "devs": m.devs,
+                "ports": [[0xFE00, 1], [0xFE02, 1], [0xFE04, 2], [0xFE06, 2]], "ireg": [[0xFFFC, "PSR"], [0xFFFE, "MCR"]],
+                "alloca": m.sim.verif_alloca().iter().map(|&(s, l)| json!([s, l])).collect::<Vec<_>>(), "proj": p,
+            }));
+            return m;
+        }
         if light {
             out.emit(json!({
                 "ev": "New", "run": run, "pair": PAIR_TAG.with(|p| p.borrow().clone()), "pairpos": next_pair_pos(), "light": 1,
@@ -405,6 +425,12 @@ impl M {
         self.sim.flags.debug_frames = f.dbg;
         self.sim.flags.ignore_privilege = f.ignp;
         self.host(out, json!({"op": "flag", "flags": f.json()}));
+    }
+    /// Changes the initialization strategy of the live simulator to Known{FILL_TAB[k-1]} (the flags are a public
+    /// field); nothing happens until the next reset, which must build the machine for the current flags.
+    pub fn set_init(&mut self, out: &mut Out, k: usize) {
+        self.sim.flags.machine_init = MachineInitStrategy::Known { value: FILL_TAB[k - 1] };
+        self.host(out, json!({"op": "setinit", "k": k}));
     }
     pub fn env_json(&self, lock_k: bool, lock_d: bool) -> Value {
         json!({"lockK": lock_k as u8, "lockD": lock_d as u8,
